@@ -391,7 +391,7 @@ impl<'a> Serialize<'a> for ClassDef<'a> {
             }
 
             glyph_max = glyph_max.max(*g);
-            if *g != prev_g + 1 || *class != prev_class + 1 {
+            if *g != prev_g.wrapping_add(1) || *class != prev_class.wrapping_add(1) {
                 num_ranges += 1;
             }
 
